@@ -412,6 +412,15 @@ theorem C09_roundtrip (repo : Repo) (docs : List Doc) (b : SB) (mj rj : Bytes)
     exact checkDoc_none repo d o _ (hwf d hdm)
       ⟨f1, f10, f4, f5, f6, f7, f8, f9, hsyms i d o hd ho, hr.1, hr.2⟩
 
+/-- **branchmask_roundtrip.** The names `gatherBranches` lists for the mask `Add` stored are exactly the branches of the
+    document, in the order of the branch list the mask was computed against — for every repository with at most 64 distinct
+    branch names. In a compound shard this is applied per document with the document's *own* repository (`cmask`
+    correspondence): a bit position taken from another repository's list would break it. -/
+theorem branchmask_roundtrip (names doc : List Bytes) (mask : Nat) (hn : names.Nodup) (hl : names.length ≤ 64)
+    (h : branchMaskOf names doc = some mask) :
+    maskBranches names 64 mask 0 = names.filter (doc.contains ·) ∧ mask < 2 ^ 64 :=
+  branches_roundtrip names doc mask hn hl h
+
 /-- **sections_byte_to_rune.** If `newSearchableString` accepts `(data, secs)` — boundaries sorted and inside the content, as
     `ShardBuilder.Add` has checked (`boundsOk_of_checks`) — it returns one rune section per byte section and each rune
     offset denotes its byte offset (a rune start of `data`, or its end), for every builder state and every content
